@@ -27,13 +27,16 @@ package limit_test
 
 import (
 	"fmt"
+	"os"
 	"strings"
 	"sync"
 	"sync/atomic"
 	"testing"
 	"time"
 
+	prom "github.com/prometheus/client_golang/prometheus"
 	"github.com/zeromicro/go-zero/core/limit"
+	zprom "github.com/zeromicro/go-zero/core/prometheus"
 	"github.com/zeromicro/go-zero/internal/verifkit"
 	"pgregory.net/rapid"
 )
@@ -45,12 +48,17 @@ var (
 	c03IEnvs []*c03Env
 	c03IErr  error
 	c03ISeq  atomic.Int64
+	// go-zero's redis client metrics are live (the PINGs of the warm-up were counted)
+	c03IMetrics bool
 )
 
 // c03IndepEnvs returns n of the three process-wide servers A, B, C of the independence units
 // (each a miniredis of its own with the one go-zero client, breaker and hook of its address).
 func c03IndepEnvs(f failer, n int) []*c03Env {
 	c03IOnce.Do(func() {
+		// go-zero's redis client metrics (count of breaker-open rejections, see c03INoRejection)
+		// are only kept while its prometheus support is switched on
+		zprom.Enable()
 		for i := 0; i < 3; i++ {
 			e, err := c03NewEnv()
 			if err != nil {
@@ -59,6 +67,8 @@ func c03IndepEnvs(f failer, n int) []*c03Env {
 			}
 			c03IEnvs = append(c03IEnvs, e)
 		}
+		_, commands, err := c03IGather()
+		c03IMetrics = err == nil && commands >= 900 // 3 x 300 warm-up PINGs went through the clients
 	})
 	if c03IErr != nil {
 		f.Skipf("inconclusive: cannot start miniredis: %v", c03IErr)
@@ -66,6 +76,7 @@ func c03IndepEnvs(f failer, n int) []*c03Env {
 	for _, e := range c03IEnvs { // a failed case may have left any of them down
 		e.reset()
 	}
+	c03INoRejection() // reference value of the breaker-open counter for this case
 	return c03IEnvs[:n]
 }
 
@@ -146,6 +157,20 @@ func (g *c03IJoint) untouched(what, on string, envs []*c03Env, self int, f func(
 		}
 	}()
 	f()
+}
+
+// c03ITooManyAbandoned: a run in which most cases were abandoned as inconclusive has not
+// checked much.  That is no verdict (only wall-clock budgets and breaker/transport
+// interference abandon a case) but no pass either: like c03NoRecovery the unit ends with a
+// non-FAIL exit status, which the driver reports as INFRA/inconclusive instead of OK.
+func c03ITooManyAbandoned(tt *testing.T, st *verifkit.Stats, unit string, cases, abandoned int) {
+	if tt.Failed() || cases < 10 || 2*abandoned <= cases {
+		return
+	}
+	st.Note("%d of %d cases abandoned as inconclusive", abandoned, cases)
+	st.Flush()
+	fmt.Printf("INCONCLUSIVE: C03 %s: %d of %d cases abandoned as inconclusive\n", unit, abandoned, cases)
+	os.Exit(3)
 }
 
 // c03IFailer is the failer of a single-pair world inside a joint world.
@@ -244,32 +269,133 @@ func (g *c03IWorld) otherDown(s int) bool {
 	return false
 }
 
-// allow is one request, judged by the pair's own world (reference bucket of the pair while
-// its store is reachable, local bound of the instance otherwise).
+// allow is one request.  Store of the pair unreachable, instance in an outage episode of its
+// own, or a single failing command: judged by the pair's single-pair world (local bound of
+// the instance).  Otherwise (allowJoint) the pair's reference bucket decides.
 func (g *c03IWorld) allow(p *c03IPair, i, n int, ctx bool, fault int) {
 	in := p.inst[i]
 	joint := !p.down && !in.local && fault == c03FaultNone
-	want := joint && n <= p.model.peek(p.sec()) // what the pair's bucket predicts
 	other := g.otherDown(p.s)
 	g.begin(&p.log, " i", " "+p.label+"#")
-	g.untouched(fmt.Sprintf("%s#%d", p.label, i), g.stores[p.s].name, g.envs, p.s, func() { p.allowN(i, n, ctx, fault) })
-	g.end()
-	if !joint {
-		if other {
-			g.st.Class("allow:local-while-another-store-is-down-too")
+	g.untouched(fmt.Sprintf("%s#%d", p.label, i), g.stores[p.s].name, g.envs, p.s, func() {
+		if joint {
+			g.allowJoint(p, i, n, ctx, other)
+		} else {
+			p.allowN(i, n, ctx, fault)
 		}
-		return
+	})
+	g.end()
+	if !joint && other {
+		g.st.Class("allow:local-while-another-store-is-down-too")
+	}
+}
+
+// allowJoint: the pair's store is reachable and has been for the whole life of the instance
+// or since it was seen back on the store: "instances sharing a key and a reachable store
+// jointly behave as one token bucket ... granted iff the bucket holds n" - the answer must
+// be the one of the pair's reference bucket, whatever the other stores are doing.
+//
+// This is the reachable-store branch of c03TWorld.allowN with one difference.  There, a call
+// of which no command got past the client's breaker is abandoned as inconclusive.  Here the
+// harness knows more: the breaker-open rejections of the redis clients are counted by
+// go-zero's own metric redis_client_requests_error_total{error="breaker open"}; if that did
+// not move and no transport error happened, nothing kept the limiter from asking its
+// (reachable) store - it answered on its own, e.g. because an outage of ANOTHER store put it
+// into local mode.  Such an answer is judged like any other: it has to equal the bucket's.
+func (g *c03IWorld) allowJoint(p *c03IPair, i, n int, ctx, other bool) {
+	in, e := p.inst[i], p.e
+	pr := e.probe()
+	got := p.call(in, n, ctx)
+	// a call that did not reach the store stays inconclusive unless it is certain that no
+	// breaker rejected a command
+	rejected := !e.reached(pr) && !c03INoRejection()
+	held := p.model.peek(p.sec())
+	want := p.model.take(p.sec(), n)
+	p.logf(" i%d.allow(%d)=%s", i, n, tf(got))
+	if rejected || e.transported(pr) || (e.reached(pr) && e.executed(pr) != 1) {
+		p.abort("allowN: breaker/transport interfered (reached=%v breaker-open rejection possible=%v transport=%v executions=%d)",
+			e.reached(pr), rejected, e.transported(pr), e.executed(pr))
+	}
+	asked := e.reached(pr)
+	if got != want {
+		how := ""
+		if !asked {
+			how = fmt.Sprintf("; the limiter did not ask its store (no command sent, none rejected by a breaker), it consults the store: %v", in.lim.VerifAlive())
+		}
+		p.fail("instance %d on %s: request for %d tokens answered %v, but the bucket of this (store, key) holds %d (statement: instances sharing a key and a reachable store behave as one bucket, granted iff the bucket holds n); store %s is reachable and was for the whole life of the instance or since it was seen back on it; other stores unreachable at this moment: %v%s",
+			i, p.label, n, got, held, g.stores[p.s].name, g.downNames(), how)
+	}
+	g.st.Class("allow:joint-" + tf(got))
+	if !asked {
+		// allowed to go on: the answer was right; the bucket and the store now differ by this
+		// request, which the next answers will show
+		g.st.Class("allow:joint-answered-without-asking-the-store")
+	}
+	if got {
+		in.granted += n
+	}
+	if p.recovered > 0 {
+		p.afterRecovery++
 	}
 	if other {
-		// the answer has just been found equal to the bucket's
+		// an answer of an instance on a healthy store, equal to its bucket's, while another
+		// store is down
 		g.st.Class("outage-on-other-store")
-		if want && n >= 1 {
+		if got && n >= 1 {
 			g.otherGrant = true
 		}
-		if !want && n <= p.burst {
+		if !got && n <= p.burst {
 			g.otherDeny = true
 		}
 	}
+}
+
+// c03INoRejection: it is certain that no redis client's breaker has rejected a command since
+// the previous call of this function (every case starts with one): go-zero's counter
+// redis_client_requests_error_total{error="breaker open"} (all commands, all clients of the
+// process) has not moved.  Reading the registry is not free, so the counter is read at the
+// start of a case and then only for calls that did not reach their store; a rejection
+// anywhere in between makes the answer "not certain" (the call stays inconclusive).
+func c03INoRejection() bool {
+	if !c03IMetrics {
+		return false
+	}
+	open, _, err := c03IGather()
+	if err != nil {
+		c03IOpenSeen = -1
+		return false
+	}
+	same := open == c03IOpenSeen
+	c03IOpenSeen = open
+	return same
+}
+
+var c03IOpenSeen float64 = -1
+
+// c03IGather reads go-zero's redis client metrics from the default registry: breaker-open
+// rejections and the number of commands the clients have timed.
+func c03IGather() (breakerOpen float64, commands uint64, err error) {
+	mfs, err := prom.DefaultGatherer.Gather()
+	if err != nil {
+		return 0, 0, err
+	}
+	for _, mf := range mfs {
+		switch mf.GetName() {
+		case "redis_client_requests_error_total":
+			for _, m := range mf.GetMetric() {
+				for _, l := range m.GetLabel() {
+					if l.GetName() == "error" && l.GetValue() == "breaker open" {
+						breakerOpen += m.GetCounter().GetValue()
+					}
+				}
+			}
+		case "redis_client_requests_duration_ms":
+			for _, m := range mf.GetMetric() {
+				commands += m.GetHistogram().GetSampleCount()
+			}
+		}
+	}
+	return
 }
 
 func (g *c03IWorld) advance(d int64) {
@@ -377,14 +503,24 @@ func TestVerifC03TokenIndependence(t *testing.T) {
 	st := verifkit.New("token-independence")
 	defer st.Flush()
 	tt := t
+	cases, abandoned := 0, 0
 	rapid.Check(t, func(t *rapid.T) {
 		c03NoRecovery(tt, st)
 		st.Eval()
+		cases++
 		nStores := rapid.SampledFrom([]int{2, 2, 3}).Draw(t, "stores")
 		envs := c03IndepEnvs(t, nStores)
 		g := &c03IWorld{now: c03DrawT0(t), envs: envs}
+		defer func() {
+			if g.dead {
+				abandoned++
+			}
+		}()
 		g.f, g.st = t, st
 		g.downNow = g.downNames
+		if !c03IMetrics {
+			st.Class("inconclusive:redis-client-metrics-not-readable")
+		}
 		g.prefix = fmt.Sprintf("c03i:%d:", c03ISeq.Add(1))
 		for i, e := range envs {
 			e.mr.FlushAll()
@@ -591,6 +727,7 @@ func TestVerifC03TokenIndependence(t *testing.T) {
 		}
 	})
 	c03NoRecovery(tt, st)
+	c03ITooManyAbandoned(tt, st, "token-independence", cases, abandoned)
 }
 
 // ------------------------------------------------------------------ period world
@@ -622,7 +759,13 @@ func (g *c03IPWorld) take(s, li, ki, fault int, otherDown bool) int {
 	}
 	g.begin(&w.log, " take", " "+g.names[s]+":take")
 	var code int
-	g.untouched(fmt.Sprintf("%s:lim%d", g.names[s], li), g.names[s], g.envs, s, func() { code = w.take(li, ki, fault) })
+	g.untouched(fmt.Sprintf("%s:lim%d", g.names[s], li), g.names[s], g.envs, s, func() {
+		if fault != c03FaultNone {
+			code = w.take(li, ki, fault)
+		} else {
+			code = g.takePlain(w, g.names[s], li, ki)
+		}
+	})
 	g.end()
 	if otherDown {
 		for _, o := range g.ws {
@@ -640,6 +783,48 @@ func (g *c03IPWorld) take(s, li, ki, fault int, otherDown bool) int {
 			}
 		}
 	}
+	return code
+}
+
+// takePlain is a request without an injected fault: the no-fault branch of c03PWorld.take
+// ("request #i of the period on this store's key: i<quota Allowed, i=quota HitQuota, later
+// OverQuota"), with the difference described at allowJoint: a call of which no command
+// reached the store although no breaker rejected one is not abandoned, its answer is judged.
+func (g *c03IPWorld) takePlain(w *c03PWorld, store string, li, ki int) int {
+	k, l := w.keys[ki], w.lims[li]
+	w.roll(k)
+	pr := w.e.probe()
+	code, err := l.Take(k.name)
+	rejected := !w.e.reached(pr) && !c03INoRejection()
+	w.logf(" take%d(%s)=%s", li, k.name, c03CodeName(code))
+	if rejected || w.e.transported(pr) || (w.e.reached(pr) && w.e.executed(pr) != 1) {
+		w.abort("take: breaker/transport interfered (reached=%v breaker-open rejection possible=%v transport=%v executions=%d err=%v)",
+			w.e.reached(pr), rejected, w.e.transported(pr), w.e.executed(pr), err)
+	}
+	how := ""
+	if !w.e.reached(pr) {
+		how = " (the limiter did not ask its store: no command sent, none rejected by a breaker)"
+		g.st.Class("take:answered-without-asking-the-store")
+	}
+	if err != nil {
+		w.fail("take on %s of store %s returned error %v (code %s) although that store is reachable%s (statement: the first `quota` requests of a period are granted; only a store error is reported as an error)",
+			k.name, store, err, c03CodeName(code), how)
+	}
+	k.count++
+	if want := c03Expect(k.count, w.quota); code != want {
+		w.fail("request #%d of the period on key %s of store %s answered %s, statement requires %s (quota %d; one counter per key of a store: requests on other stores do not count)%s",
+			k.count, k.name, store, c03CodeName(code), c03CodeName(want), w.quota, how)
+	}
+	if k.count == 1 {
+		w.start(k)
+	}
+	if k.count >= w.quota {
+		k.hit = true
+	}
+	if k.crossed && (code == limit.Allowed || code == limit.HitQuota) {
+		k.regrant = true
+	}
+	g.st.Class("take:" + c03CodeName(code))
 	return code
 }
 
@@ -670,11 +855,19 @@ func (g *c03IPWorld) forward(d int64) {
 func TestVerifC03PeriodIndependence(t *testing.T) {
 	st := verifkit.New("period-independence")
 	defer st.Flush()
+	tt := t
+	cases, abandoned := 0, 0
 	rapid.Check(t, func(t *rapid.T) {
 		st.Eval()
+		cases++
 		nStores := rapid.SampledFrom([]int{2, 2, 3}).Draw(t, "stores")
 		envs := c03IndepEnvs(t, nStores)
 		g := &c03IPWorld{envs: envs}
+		defer func() {
+			if g.dead {
+				abandoned++
+			}
+		}()
 		g.f, g.st = t, st
 		g.downNow = func() []string { return nil }
 		prefix := fmt.Sprintf("c03pi:%d:", c03ISeq.Add(1))
@@ -783,4 +976,5 @@ func TestVerifC03PeriodIndependence(t *testing.T) {
 			st.NonTrivial(g.log.String())
 		}
 	})
+	c03ITooManyAbandoned(tt, st, "period-independence", cases, abandoned)
 }
